@@ -257,6 +257,20 @@ impl NamespaceIndex {
         (size, rlist)
     }
 
+    /// the namespaces indexed so far are announced (again): services loaded before the namespace actor
+    /// was injected could not announce theirs
+    pub(crate) fn announce_all_namespaces(&self) {
+        for namespace_id in self.namespace_group.keys() {
+            self.notify_namespace_change(
+                WeakNamespaceParam {
+                    namespace_id: namespace_id.clone(),
+                    from_type: WeakNamespaceFromType::Naming,
+                },
+                false,
+            );
+        }
+    }
+
     fn notify_namespace_change(&self, param: WeakNamespaceParam, is_remove: bool) {
         if let Some(act) = &self.namespace_actor {
             if is_remove {
